@@ -811,6 +811,37 @@ func c16Engine(env *Env, rep *Report) {
 			rep.Violate("C16-isolation", cs, fmt.Sprintf("in %d rounds: %d instances run on the locator of another one, %d read back a value another instance wrote", rounds, sharedLoc, leaked))
 		}
 	}
+	// variables given in several WithVariables options (defaults of a deployment, values of a request): all of them
+	// are stored, a name given twice has the value of the later option -- in either order of the options
+	for _, order := range [][2]int{{0, 1}, {1, 0}} {
+		cs := fmt.Sprintf("two WithVariables options on one instance, in the order %v (0 = {region, limit, shared: from-defaults}, 1 = {customer, shared: from-request})", order)
+		env.Current(cs)
+		q := &Prog{}
+		q.Node("start", "start")
+		q.Node("task", "T")
+		q.Node("end", "end")
+		q.Flow("start", "T", "")
+		q.Flow("T", "end", "")
+		sets := []map[string]any{
+			{"region": "eu", "limit": 10, "shared": "from-defaults"},
+			{"customer": "c-17", "shared": "from-request"},
+		}
+		defs, err := ParseDefs(q.XML(""))
+		must(err)
+		in, err := StartInst(defs, InstOpt{Opts: []bpmn.Option{bpmn.WithVariables(sets[order[0]]), bpmn.WithVariables(sets[order[1]])}})
+		must(err)
+		rep.Evaluations++
+		rep.Nontrivial++
+		rep.Count("engine_several_variable_options")
+		want := map[string]string{"region": "eu", "limit": "10", "customer": "c-17", "shared": fmt.Sprint(sets[order[1]]["shared"])}
+		vars := in.P.Locator().CloneVariables()
+		for name, w := range want {
+			if it, ok := vars[name]; !ok || fmt.Sprint(it.Value()) != w {
+				rep.Violate("C16-engine", cs, fmt.Sprintf("variable %s reads %v, expected %s (all variables: %d)", name, it, w, len(vars)))
+			}
+		}
+		in.Close()
+	}
 	propertyPerRequest(env, rep, "C16-engine", "C16-isolation")
 	manyWritersAtOnce(env, rep, "C16-engine", 6)
 	c16ExprPools(env, rep)
